@@ -263,7 +263,197 @@ fn case(ctx: &mut Ctx, index: u64, rng: &mut Rng) {
     }
 }
 
+// ---------------------------------------------------------------------------------------------------------------
+// Class "real-daemon": numbered broadcast signals from another connection through a PRIVATE real dbus-daemon into several
+// streams of one connection, each consumed on its own OS thread (true parallelism between the socket reader, the
+// broadcasters and the consumers), while a further thread creates and drops unrelated streams. Every burst ends with an
+// "End" signal that every stream's rule admits: since a bus and a stream both preserve order, when End is out of a stream
+// everything that preceded it must have come out, exactly once and in order — no wall-clock verdict.
+
+#[cfg(not(miri))]
+mod real {
+    use crate::harness::realbus::*;
+    use futures_lite::StreamExt;
+    use serde_json::json;
+    use std::time::Duration;
+    use vcommon::Ctx;
+    use vref::prng::{fnv, Rng};
+    use zbus::blocking::Connection;
+    use zbus::MessageStream;
+
+    /// (rule, does it admit (member, seq)?)
+    fn rules(iface: &str) -> Vec<(String, fn(&str, u32) -> bool)> {
+        vec![
+            (format!("type='signal',interface='{iface}'"), |_, _| true),
+            (format!("type='signal',interface='{iface}',path='/s'"), |_, _| true),
+            (format!("type='signal',interface='{iface}',path_namespace='/'"), |_, _| true),
+            // member-specific rules see only their member (and never End: they are read with a count instead)
+            (format!("type='signal',interface='{iface}',member='Odd'"), |m, _| m == "Odd"),
+        ]
+    }
+
+    pub fn history(ctx: &mut Ctx, index: u64, rng: &mut Rng, daemon: &Daemon) -> Result<(), String> {
+        ctx.count("evaluations", 1);
+        ctx.count("class:real-daemon", 1);
+        let a = daemon.connect()?;
+        let b = daemon.connect()?;
+        let iface = format!("t.S{index}");
+        let rs = rules(&iface);
+        let conn = a.inner().clone();
+        // 2..5 streams (some over the same rule, some clones, small and default queue capacities)
+        let n_streams = 2 + rng.usize_below(4);
+        let mut streams: Vec<(usize, MessageStream, &'static str)> = Vec::new();
+        for _ in 0..n_streams {
+            let r = rng.usize_below(rs.len());
+            if rng.chance(1, 4) && !streams.is_empty() {
+                let k = rng.usize_below(streams.len());
+                let (r0, s0, _) = &streams[k];
+                streams.push((*r0, s0.clone(), "clone"));
+                continue;
+            }
+            let cap = *rng.pick(&[None, Some(1usize), Some(2), Some(64)]);
+            let text = rs[r].0.clone();
+            let c = conn.clone();
+            let s = zbus::block_on(async move { MessageStream::for_match_rule(text.as_str(), &c, cap).await }).map_err(|e| format!("for_match_rule on the real bus: {e}"))?;
+            streams.push((r, s, "own"));
+        }
+        // the burst
+        let total = 20 + rng.usize_below(if ctx.thorough() { 400 } else { 120 }) as u32;
+        let members: Vec<&'static str> = (0..total).map(|k| if k % 2 == 1 { "Odd" } else { "Even" }).collect();
+        let odd_count = members.iter().filter(|m| **m == "Odd").count();
+        // consumers
+        let mut joins = Vec::new();
+        for (k, (r, s, how)) in streams.into_iter().enumerate() {
+            let admits = rs[r].1;
+            let ends_with_marker = r != 3;
+            let want_n = if ends_with_marker { usize::MAX } else { odd_count };
+            let slow = rng.chance(1, 3);
+            joins.push(std::thread::spawn(move || {
+                let mut s = s;
+                let mut got: Vec<(String, u32)> = Vec::new();
+                let res = zbus::block_on(async {
+                    while got.len() < want_n {
+                        let m = match s.next().await {
+                            Some(Ok(m)) => m,
+                            Some(Err(e)) => return Err(format!("stream error: {e}")),
+                            None => return Err("stream ended".to_string()),
+                        };
+                        let member = m.header().member().map(|x| x.to_string()).unwrap_or_default();
+                        if member == "End" {
+                            break;
+                        }
+                        let seq: u32 = m.body().deserialize().unwrap_or(u32::MAX);
+                        got.push((member, seq));
+                        if slow && got.len() % 7 == 0 {
+                            std::thread::sleep(Duration::from_micros(300));
+                        }
+                    }
+                    Ok(())
+                });
+                (k, r, how, admits, got, res)
+            }));
+        }
+        // churn: unrelated streams come and go on the same connection meanwhile
+        let churn_conn = conn.clone();
+        let churn_rule = format!("type='signal',interface='t.Churn{index}'");
+        let stop = std::sync::Arc::new(std::sync::atomic::AtomicBool::new(false));
+        let stop2 = stop.clone();
+        let churn = std::thread::spawn(move || {
+            let mut n = 0u32;
+            while !stop2.load(std::sync::atomic::Ordering::Relaxed) && n < 200 {
+                let c = churn_conn.clone();
+                let t = churn_rule.clone();
+                if let Ok(s) = zbus::block_on(async move { MessageStream::for_match_rule(t.as_str(), &c, None).await }) {
+                    drop(s);
+                }
+                n += 1;
+            }
+            n
+        });
+        // the sender: numbered signals, then End
+        for (k, m) in members.iter().enumerate() {
+            b.emit_signal(None::<&str>, "/s", iface.as_str(), *m, &(k as u32)).map_err(|e| format!("emit on the real bus: {e}"))?;
+        }
+        b.emit_signal(None::<&str>, "/s", iface.as_str(), "End", &(u32::MAX)).map_err(|e| format!("emit on the real bus: {e}"))?;
+        ctx.count("real_signals_sent", total as u64 + 1);
+        // collect, guarded by a generous watchdog (its firing is INCONCLUSIVE, not a verdict)
+        let (tx, rx) = std::sync::mpsc::channel();
+        std::thread::spawn(move || {
+            let out: Vec<_> = joins.into_iter().map(|j| j.join()).collect();
+            let _ = tx.send(out);
+        });
+        let out = match rx.recv_timeout(Duration::from_secs(120)) {
+            Ok(o) => o,
+            Err(_) => {
+                stop.store(true, std::sync::atomic::Ordering::Relaxed);
+                return Err(format!("C20 real-daemon history {index}: the consumers did not finish within 120 s ({total} signals)"));
+            }
+        };
+        stop.store(true, std::sync::atomic::Ordering::Relaxed);
+        let churned = churn.join().unwrap_or(0);
+        ctx.count("real_churn_streams", churned as u64);
+        let mut shape = format!("{total}");
+        for j in out {
+            let (k, r, how, admits, got, res) = match j {
+                Ok(x) => x,
+                Err(e) => std::panic::resume_unwind(e),
+            };
+            ctx.count("real_streams_checked", 1);
+            shape.push_str(&format!("|{r}{how}"));
+            let want: Vec<(String, u32)> = members.iter().enumerate().filter(|(k, m)| admits(m, *k as u32)).map(|(k, m)| (m.to_string(), k as u32)).collect();
+            let detail = json!({"stream": k, "rule": r, "how": how, "sent": total, "expected": want.len(), "received": got.len(),
+                                "first_difference": want.iter().zip(got.iter()).position(|(a, b)| a != b), "end": res.clone().err()});
+            if let Err(e) = &res {
+                ctx.finding(index, "stream-ended-with-error", "-", "real-daemon", json!({"error": e, "state": detail}));
+            } else if got != want {
+                let reason = if got.len() < want.len() { "missing" } else if got.len() > want.len() { "extra-or-duplicate" } else { "reordered-or-wrong" };
+                ctx.finding(index, "delivery-differs", reason, "real-daemon", detail);
+            }
+        }
+        ctx.distinct(fnv(&shape));
+        if index % 16 == 0 {
+            ctx.sample(json!({"real_daemon_burst": {"signals": total, "streams": shape}}));
+        }
+        Ok(())
+    }
+
+    pub fn run(ctx: &mut Ctx) {
+        let n = ctx.budget(280, 8000);
+        let daemon = match Daemon::start("c20") {
+            Ok(d) => d,
+            Err(e) => {
+                ctx.problem(&format!("C20 real-daemon class: {e}"));
+                return;
+            }
+        };
+        let _keep: Option<Connection> = None;
+        for k in 0..n {
+            let i = 3_000_000_000 + k;
+            if !ctx.want(i) {
+                continue;
+            }
+            let mut rng = ctx.rng(i);
+            let mut trouble = None;
+            ctx.guarded(i, "real-daemon", || json!({}), |ctx| {
+                if let Err(e) = history(ctx, i, &mut rng, &daemon) {
+                    trouble = Some(e);
+                }
+            });
+            if let Some(e) = trouble {
+                ctx.problem(&format!("C20 real-daemon history {i}: {e}"));
+                return;
+            }
+        }
+    }
+}
+
 pub fn run(ctx: &mut Ctx) {
+    #[cfg(not(miri))]
+    real::run(ctx);
+    // `--x-only real-daemon`: only the class on the real bus (the ThreadSanitizer layer)
+    if ctx.args.extra.get("only").map(|s| s == "real-daemon").unwrap_or(false) {
+        return;
+    }
     let n = ctx.budget(3000, 150_000);
     for i in 0..n {
         if !ctx.want(i) {
